@@ -174,23 +174,24 @@ Theorem write_changes_nothing_else : forall data pos d i,
 Proof. exact overwrite_elsewhere. Qed.
 Print Assumptions write_changes_nothing_else.
 
-(* File::copy that says true, exactly: the source text leads (through links) to a regular file
-   with bytes c, the destination text leads to a different place dd/nd in an existing directory
-   where there was nothing or - without failIfExists - a regular file, and the state afterwards
-   is the state before with a regular file holding exactly c at that place *)
-Theorem copy_carries_the_bytes : forall st src dst fie st',
-  f_copy st src dst fie = (st', true) ->
+(* File::copy that says true, exactly, whatever the transfer calls of the kernel do (orc: one
+   sendfile call may move fewer bytes than asked for, or fail): the source text leads (through
+   links) to a regular file with bytes c, the destination text leads to a different place dd/nd in
+   an existing directory where there was nothing or - without failIfExists - a regular file, and
+   the state afterwards is the state before with a regular file holding exactly c at that place *)
+Theorem copy_carries_the_bytes : forall orc st src dst fie st',
+  f_copy_o orc st src dst fie = (st', true) ->
   exists ds ns c dd nd kd es,
     resolve st true src = WAt ds ns (Some SFile) /\ get (root st) (ds ++ [ns]) = Some (NFile c) /\
     resolve st (negb fie) dst = WAt dd nd kd /\ (kd = None \/ (fie = false /\ kd = Some SFile)) /\
     get (root st) dd = Some (NDir es) /\ ds ++ [ns] <> dd ++ [nd] /\
     st' = set_root st (upd (root st) (dd ++ [nd]) (Some (NFile c))).
-Proof. exact copy_success_exact. Qed.
+Proof. exact copy_success_exact_o. Qed.
 Print Assumptions copy_carries_the_bytes.
 
 (* read off the tree: the destination holds the bytes, the source keeps them, nothing else changes kind *)
-Theorem copy_leaves_the_rest : forall st src dst fie st',
-  f_copy st src dst fie = (st', true) ->
+Theorem copy_leaves_the_rest : forall orc st src dst fie st',
+  f_copy_o orc st src dst fie = (st', true) ->
   exists ps pd c, get (root st) ps = Some (NFile c) /\
                   get (root st') pd = Some (NFile c) /\ get (root st') ps = Some (NFile c) /\
                   (forall q, is_prefix pd q = false -> sget (root st') q = sget (root st) q).
@@ -228,14 +229,32 @@ Theorem failed_rename_changes_nothing : forall st from to fie st',
 Proof. exact rename_failure_unchanged. Qed.
 Print Assumptions failed_rename_changes_nothing.
 
-(* in particular copy(f, f, false) leaves f alone (repair fixes/C19/07) *)
+(* when every transfer call completes: a copy that says false has changed nothing at all; in
+   particular copy(f, f, false) leaves f alone (repair fixes/C19/07) *)
 Theorem failed_copy_changes_nothing : forall st src dst fie st',
   f_copy st src dst fie = (st', false) -> st' = st.
 Proof. exact copy_failure_unchanged. Qed.
 Print Assumptions failed_copy_changes_nothing.
 
-Theorem failed_copy_leaves_no_new_name : forall st src dst fie st',
-  f_copy st src dst fie = (st', false) ->
+(* whatever the transfer calls do (short, failing): a copy that says false has either changed
+   nothing - a destination it created itself is removed again (repair fixes/C19/09) - or the
+   destination text led to a regular file that existed before (or, through a symbolic link, to a
+   name that did not), and that one place, now a regular file, is all that differs *)
+Theorem failed_copy_touches_only_destination : forall orc st src dst fie st',
+  f_copy_o orc st src dst fie = (st', false) ->
+  st' = st \/
+  exists dd nd es, resolve st true dst = WAt dd nd (sget (root st) (dd ++ [nd])) /\ get (root st) dd = Some (NDir es) /\
+    (sget (root st) (dd ++ [nd]) = Some SFile \/ (sget (root st) (dd ++ [nd]) = None /\ k_lstat st dst <> None)) /\
+    (forall q, is_prefix (dd ++ [nd]) q = false -> sget (root st') q = sget (root st) q) /\
+    (forall q, is_prefix (dd ++ [nd]) q = false -> is_prefix q (dd ++ [nd]) = false -> get (root st') q = get (root st) q) /\
+    sget (root st') (dd ++ [nd]) = Some SFile.
+Proof. exact copy_failure_frame. Qed.
+Print Assumptions failed_copy_touches_only_destination.
+
+(* no new name after a failed copy, whatever the transfer calls do - unless the destination text
+   is a symbolic link to a missing name (lstat succeeds, stat does not), which the second open creates *)
+Theorem failed_copy_leaves_no_new_name : forall orc st src dst fie st',
+  f_copy_o orc st src dst fie = (st', false) -> (k_lstat st dst <> None -> k_stat st dst <> None) ->
   forall q, sget (root st') q <> None -> sget (root st) q <> None.
 Proof. exact copy_failure_no_new_names. Qed.
 Print Assumptions failed_copy_leaves_no_new_name.
@@ -365,6 +384,19 @@ Proof. vm_compute. reflexivity. Qed.
 Example ex_copy :
   let (st', ok) := f_copy demo [104] [97;47;110] true in
   ok = true /\ get (root st') (cwd demo ++ [[97]; [110]]) = Some (NFile [120;121]).
+Proof. vm_compute. split; reflexivity. Qed.
+(* a transfer in three calls (1 byte, 1 byte, rest): the bytes arrive all the same *)
+Example ex_copy_short :
+  let (st', ok) := f_copy_o [XAtMost 1; XAtMost 1] demo [104] [97;47;110] true in
+  ok = true /\ get (root st') (cwd demo ++ [[97]; [110]]) = Some (NFile [120;121]).
+Proof. vm_compute. split; reflexivity. Qed.
+(* the second call fails: false, and the destination this call created is gone again *)
+Example ex_copy_transfer_fails : f_copy_o [XAtMost 1; XFail] demo [104] [97;47;110] false = (demo, false).
+Proof. vm_compute. reflexivity. Qed.
+(* over an existing destination a/f = "hi": false, a/f keeps the one byte that arrived *)
+Example ex_copy_transfer_fails_existing :
+  let (st', ok) := f_copy_o [XAtMost 1; XFail] demo [104] [97;47;102] false in
+  ok = false /\ get (root st') (cwd demo ++ [[97]; [102]]) = Some (NFile [120]).
 Proof. vm_compute. split; reflexivity. Qed.
 (* copy of h onto itself, directly and through a link to it: false, h keeps its bytes *)
 Example ex_copy_self : f_copy demo [104] [104] false = (demo, false).
